@@ -5,6 +5,7 @@ package main
 import (
 	"encoding/json"
 	"fmt"
+	"math/rand"
 	"net/http/httptest"
 	"sort"
 	"strconv"
@@ -33,6 +34,9 @@ type ext struct {
 	rtDB    string
 	prov    *logProvider
 	push    runtime.PushFunc
+	// key prefixes the provider is registered under ("p/" in the single-provider cases; "p/a/", "p/b/", … in the
+	// multi-provider cases, where one Registry.Query serves them in one goroutine each)
+	provKeys []string
 
 	// the transport the case's `api` operations use (op `apivia`): "" / "handle" = a DatabaseAPI from
 	// api.CreateDatabaseAPI driven through Handle; "ws" = a websocket connection to the HTTP handler of
@@ -88,8 +92,11 @@ type logProvider struct {
 	e    *dbx.Exec
 	recs map[string]record.Record // database key -> record
 	sets []string                 // canonical rendering of every record Set received, in order
+	gate *gateCtl                 // set while a gated query (op rtgq) runs
 }
 
+// Get may be called by several goroutines of one Registry.Query at once (the provider is registered under several
+// key prefixes in the multi-provider cases): it only reads.
 func (p *logProvider) Get(keyOrPrefix string) ([]record.Record, error) {
 	var keys []string
 	for k := range p.recs {
@@ -102,7 +109,149 @@ func (p *logProvider) Get(keyOrPrefix string) ([]record.Record, error) {
 	for _, k := range keys {
 		out = append(out, dbx.CopyRecord(p.recs[k]))
 	}
+	if gt := p.gate; gt != nil {
+		// a gated query: the calling goroutine (one per provider registration) stops here and after the evaluation of
+		// each of its records (the record's Unlock) until the harness's scheduler lets it go on
+		g := &gateG{resume: make(chan struct{})}
+		for i := range out {
+			last := i == len(out)-1
+			out[i] = &gateRec{Record: out[i], onUnlock: func() { gt.pause(g, last) }}
+		}
+		gt.pause(g, len(out) == 0)
+	}
 	return out, nil
+}
+
+// gateRec is a record whose first Unlock reports to the scheduler of a gated query: Registry.Query evaluates its
+// filter between Lock and Unlock and decides after Unlock, so the goroutine is parked between the two.
+type gateRec struct {
+	record.Record
+	once     sync.Once
+	onUnlock func()
+}
+
+func (g *gateRec) Unlock() {
+	g.Record.Unlock()
+	g.once.Do(g.onUnlock)
+}
+
+type gateG struct{ resume chan struct{} }
+
+type gateEvt struct {
+	g    *gateG
+	last bool // no further stop after this one
+}
+
+type gateCtl struct{ events chan gateEvt }
+
+func (gt *gateCtl) pause(g *gateG, last bool) {
+	gt.events <- gateEvt{g, last}
+	<-g.resume
+}
+
+// gatedQuery runs a query of interface id over prefix on the injected runtime database with every provider goroutine
+// of Registry.Query under the harness's scheduler: all goroutines are stopped when their provider has answered; then,
+// driven by the seed, one stopped goroutine at a time is let go until its next stop (the evaluation of its next
+// record) or its end. The result stream is drained concurrently. Returns what arrived, in order.
+func (x *ext) gatedQuery(e *dbx.Exec, id, pfx string, seed int64) ([]record.Record, string) {
+	q, ok := e.BuildQuery(x.rtDB, pfx, "-")
+	if !ok || e.Iface(id) == nil {
+		return nil, "bad-op"
+	}
+	// number of provider goroutines, as collectProviderByPrefix picks them: the registration with the longest key
+	// that is a prefix of the query prefix, else every registration below the query prefix
+	sp := pfx
+	if sp == "-" {
+		sp = ""
+	}
+	n := 0
+	for _, k := range x.provKeys {
+		if strings.HasPrefix(sp, k) {
+			n = 1
+		}
+	}
+	if n == 0 {
+		for _, k := range x.provKeys {
+			if strings.HasPrefix(k, sp) {
+				n++
+			}
+		}
+	}
+	gt := &gateCtl{events: make(chan gateEvt, 16)}
+	x.prov.gate = gt
+	defer func() { x.prov.gate = nil }()
+	it, err := e.Iface(id).Query(q)
+	if err != nil {
+		if strings.HasPrefix(dbx.ErrStr(err), "err:") {
+			return nil, "badquery"
+		}
+		return nil, dbx.ErrStr(err)
+	}
+	var got []record.Record
+	drained := make(chan struct{})
+	go func() {
+		for r := range it.Next {
+			got = append(got, r)
+		}
+		close(drained)
+	}()
+	next := func() (gateEvt, bool) {
+		select {
+		case ev := <-gt.events:
+			return ev, true
+		case <-time.After(10 * time.Second):
+			return gateEvt{}, false
+		}
+	}
+	var stopped []gateEvt
+	for len(stopped) < n {
+		ev, ok := next()
+		if !ok {
+			return nil, fmt.Sprintf("err:gated-query:%d-of-%d-provider-goroutines-arrived", len(stopped), n)
+		}
+		stopped = append(stopped, ev)
+	}
+	rng := newRand(seed)
+	steps := 0
+	for len(stopped) > 0 {
+		k := rng.Intn(len(stopped))
+		ev := stopped[k]
+		stopped = append(stopped[:k], stopped[k+1:]...)
+		ev.g.resume <- struct{}{}
+		steps++
+		if !ev.last {
+			nx, ok := next()
+			if !ok {
+				return nil, "err:gated-query:goroutine-did-not-reach-its-next-record"
+			}
+			stopped = append(stopped, nx)
+		}
+	}
+	select {
+	case <-drained:
+	case <-time.After(10 * time.Second):
+		return nil, "HANG"
+	}
+	gateLock.Lock()
+	gateStats[fmt.Sprintf("gated-query:providers=%d", n)]++
+	gateStats["gated-query:scheduler-steps"] += steps
+	gateLock.Unlock()
+	if ierr := it.Err(); ierr != nil {
+		return got, dbx.ErrStr(ierr)
+	}
+	return got, ""
+}
+
+var (
+	gateStats = map[string]int{}
+	gateLock  sync.Mutex
+)
+
+func unwrap(r record.Record) record.Record {
+	if g, ok := r.(*gateRec); ok {
+		return g.Record
+	}
+	return r
 }
 
 // Set may be called with the record locked (Put, setters) or not (Delete): it never locks.
@@ -203,20 +352,46 @@ func (x *ext) recv(id string) (typ string, parts []string, ok bool) {
 	}
 }
 
+// showSorted renders `ok <n> <records sorted by key>`.
+func showSorted(l []string) string {
+	sort.SliceStable(l, func(a, b int) bool {
+		return l[a][:strings.IndexByte(l[a], '~')] < l[b][:strings.IndexByte(l[b], '~')]
+	})
+	if len(l) == 0 {
+		return "ok 0"
+	}
+	return fmt.Sprintf("ok %d %s", len(l), strings.Join(l, " "))
+}
+
+func newRand(seed int64) *rand.Rand { return rand.New(rand.NewSource(seed)) }
+
 var cmpText = map[string]string{"eq": "==", "gt": ">", "ge": ">=", "lt": "<", "le": "<=", "sa": "sameas", "sw": "startswith", "ew": "endswith", "co": "contains"}
 
 func (x *ext) do(e *dbx.Exec, f []string) (string, bool) {
 	switch f[0] {
 	case "rtinit":
-		// rtinit [shadow]: the case's database becomes an injected runtime registry (shadow delete off / on) with
-		// one value provider at "p/" that keeps and logs what its Set receives
-		if len(f) > 2 || (len(f) == 2 && f[1] != "0" && f[1] != "1") {
+		// rtinit [shadow [m<k>]]: the case's database becomes an injected runtime registry (shadow delete off / on)
+		// whose value provider keeps and logs what its Set receives. Without m<k> it is registered once, at "p/"; with
+		// m<k> (k = 2..4) under k key prefixes "p/a/", "p/b/", … — k providers for the registry, so that a query whose
+		// prefix lies above them is served by k goroutines at once.
+		if len(f) > 3 || (len(f) >= 2 && f[1] != "0" && f[1] != "1") {
 			return "bad-op", true
+		}
+		regs := []string{"p/"}
+		if len(f) == 3 {
+			k := 0
+			if len(f[2]) == 2 && f[2][0] == 'm' {
+				k = int(f[2][1] - '0')
+			}
+			if k < 2 || k > 4 {
+				return "bad-op", true
+			}
+			regs = []string{"p/a/", "p/b/", "p/c/", "p/d/"}[:k]
 		}
 		rtCounter++
 		x.rtDB = fmt.Sprintf("vrt%d", rtCounter)
 		if _, err := database.Register(&database.Database{Name: x.rtDB, Description: "verification", StorageType: database.StorageTypeInjected,
-			ShadowDelete: len(f) == 2 && f[1] == "1"}); err != nil {
+			ShadowDelete: len(f) >= 2 && f[1] == "1"}); err != nil {
 			return dbx.ErrStr(err), true
 		}
 		reg := runtime.NewRegistry()
@@ -224,13 +399,70 @@ func (x *ext) do(e *dbx.Exec, f []string) (string, bool) {
 			return dbx.ErrStr(err), true
 		}
 		x.prov = &logProvider{e: e, recs: map[string]record.Record{}}
-		push, err := reg.Register("p/", x.prov)
-		if err != nil {
-			return dbx.ErrStr(err), true
+		x.provKeys = regs
+		for _, k := range regs {
+			push, err := reg.Register(k, x.prov)
+			if err != nil {
+				return dbx.ErrStr(err), true
+			}
+			x.push = push
 		}
-		x.push = push
 		e.UseDB(x.rtDB)
 		return "ok", true
+	case "rtgq":
+		// rtgq <if> <prefix> <seed>: a query on the runtime database with the provider goroutines of Registry.Query
+		// under a seeded scheduler (see gatedQuery). Answers like `query`.
+		if len(f) != 4 || x.prov == nil {
+			return "bad-op", true
+		}
+		seed, err := strconv.ParseInt(f[3], 10, 64)
+		if err != nil {
+			return "bad-op", true
+		}
+		got, es := x.gatedQuery(e, f[1], f[2], seed)
+		if es != "" && got == nil {
+			return es, true
+		}
+		var l []string
+		for _, r := range got {
+			l = append(l, e.ShowRec(unwrap(r)))
+		}
+		if es == "" {
+			es = "nil"
+		}
+		return showSorted(l) + " err=" + es, true
+	case "rtfq":
+		// rtfq <if> <prefix> <n>: the same query n times in a row, free running (the provider goroutines race as the
+		// scheduler lets them). Every repetition must list the same records; the answer is the union of all of them.
+		if len(f) != 4 || x.prov == nil || e.Iface(f[1]) == nil {
+			return "bad-op", true
+		}
+		n, err := strconv.Atoi(f[3])
+		q, ok := e.BuildQuery(x.rtDB, f[2], "-")
+		if err != nil || n < 1 || n > 100000 || !ok {
+			return "bad-op", true
+		}
+		seen := map[string]bool{}
+		var l []string
+		for k := 0; k < n; k++ {
+			it, err := e.Iface(f[1]).Query(q)
+			if err != nil {
+				if strings.HasPrefix(dbx.ErrStr(err), "err:") {
+					return "badquery", true
+				}
+				return dbx.ErrStr(err), true
+			}
+			for r := range it.Next {
+				if t := e.ShowRec(r); !seen[t] {
+					seen[t] = true
+					l = append(l, t)
+				}
+			}
+			if ierr := it.Err(); ierr != nil {
+				return showSorted(l) + " err=" + dbx.ErrStr(ierr), true
+			}
+		}
+		return showSorted(l) + " err=nil", true
 	case "rtput":
 		// the provider's value changes on its own (no Set, nothing logged)
 		if len(f) != 5 || x.prov == nil {
@@ -649,10 +881,13 @@ func actorClass(a string) string {
 // expiry and flag setters, attribute insert, get-and-put-back, batch, purge, API create / update / insert / delete,
 // subscriptions, provider pushes, and the provider changing a value on its own. After every step the provider's
 // Set log and the feeds are drained, so that every Set is attributed to the step that caused it.
-func (g *gen) runtimeCase(emit func(hxlib.Case)) {
+func (g *gen) runtimeCase(emit func(hxlib.Case), multi int) {
 	rng := g.r.Rng
 	sh := g.pick([]string{"0", "1"})
 	lines := []string{"cfg h 0", "rtinit " + sh}
+	if multi > 0 {
+		lines[1] = fmt.Sprintf("rtinit %s m%d", sh, multi)
+	}
 	if rng.Intn(3) == 0 {
 		lines = append(lines, "apivia ws")
 		g.r.Count("api-transport:ws")
@@ -661,6 +896,20 @@ func (g *gen) runtimeCase(emit func(hxlib.Case)) {
 	}
 	keys := []string{"p/a", "p/ab", "p/b", "p/c/d", "p/a/x"}
 	prefixes := []string{"-", "p", "p/", "p/a", "p/c/"}
+	subPrefixes := []string{"p/", "p/a", "p/c/"}
+	if multi > 0 {
+		// several providers ("p/a/", "p/b/", …) under the query prefixes "-", "p", "p/": one goroutine each in
+		// Registry.Query; every provider holds a mix of protected and visible records
+		keys, prefixes, subPrefixes = nil, []string{"-", "-", "p", "p/", "p/", "p/", "p/a/", "p/b/", "p/a/s"}, []string{"p/", "p/a/", "p/b/"}
+		for k := 0; k < multi; k++ {
+			l := string(rune('a' + k))
+			keys = append(keys, "p/"+l+"/1", "p/"+l+"/2", "p/"+l+"/s/3")
+			if k >= 2 {
+				prefixes = append(prefixes, "p/"+l+"/")
+			}
+		}
+		rng.Shuffle(len(keys), func(i, j int) { keys[i], keys[j] = keys[j], keys[i] })
+	}
 	for _, a := range append(actors, struct{ id, l, i string }{"P", "1", "1"}) {
 		lines = append(lines, fmt.Sprintf("if %s %s %s n 0 0 0 0", a.id, a.l, a.i))
 	}
@@ -687,7 +936,7 @@ func (g *gen) runtimeCase(emit func(hxlib.Case)) {
 		note(keys[i], form)
 		step(fmt.Sprintf("rtput %s %s 0,0,0,0,%s %s", keys[i], form, fl, dbx.GenFields(rng, form, fmt.Sprintf("m%d", g.marker))))
 	}
-	for i := 0; i < rng.Intn(4); i++ {
+	for i := 0; i < rng.Intn(4)+2*multi; i++ {
 		k, form, l := g.rec(keys, []string{"T", "J", "J", "R"})
 		note(k, form)
 		step("rtput " + l)
@@ -706,8 +955,18 @@ func (g *gen) runtimeCase(emit func(hxlib.Case)) {
 			step("exists " + a + " " + k)
 			cls += "exists"
 		case x < 18:
-			step(fmt.Sprintf("query %s %s -", a, g.pick(prefixes)))
-			cls += "query"
+			switch {
+			case multi > 0 && rng.Intn(4) != 0:
+				// the provider goroutines of Registry.Query under a seeded scheduler
+				step(fmt.Sprintf("rtgq %s %s %d", a, g.pick(prefixes), rng.Intn(1000000)))
+				cls += "query-gated-provider-goroutines"
+			case multi > 0:
+				step(fmt.Sprintf("rtfq %s %s %d", a, g.pick(prefixes), g.r.Budget(20, 200)))
+				cls += "query-repeated-free-running"
+			default:
+				step(fmt.Sprintf("query %s %s -", a, g.pick(prefixes)))
+				cls += "query"
+			}
 		case x < 34:
 			k2, form, l := g.rec(keys, []string{"T", "J", "J", "R"})
 			note(k2, form)
@@ -767,7 +1026,7 @@ func (g *gen) runtimeCase(emit func(hxlib.Case)) {
 			step("api get " + k)
 			a, cls = "api", cls+"get"
 		case x < 86:
-			step(fmt.Sprintf("api query %s -", g.pick([]string{"p/", "p/a", "p/c/"})))
+			step(fmt.Sprintf("api query %s -", g.pick(subPrefixes)))
 			a, cls = "api", cls+"query"
 		case x < 92:
 			g.marker++
@@ -791,6 +1050,13 @@ func (g *gen) runtimeCase(emit func(hxlib.Case)) {
 		}
 	}
 	step("query P p/ -", "query A p/ -", "query B p/ -", "query C p/ -", "api query p/ -")
+	if multi > 0 {
+		for _, a := range []string{"A", "B", "C"} {
+			step(fmt.Sprintf("rtgq %s p/ %d", a, rng.Intn(1000000)), fmt.Sprintf("rtgq %s - %d", a, rng.Intn(1000000)))
+		}
+		emit(hxlib.Case{Lines: lines, NonTrivial: true, Kind: fmt.Sprintf("runtime-registry:%d-providers:%s", multi, sh)})
+		return
+	}
 	emit(hxlib.Case{Lines: lines, NonTrivial: true, Kind: "runtime-registry:" + sh})
 }
 
@@ -877,7 +1143,12 @@ func generate(r *hxlib.Run, emit0 func(hxlib.Case)) {
 			}
 		}
 		if i%4 == 0 {
-			g.runtimeCase(emit)
+			// alternately one provider, and 2-4 providers under one query prefix
+			if i%8 == 0 {
+				g.runtimeCase(emit, 0)
+			} else {
+				g.runtimeCase(emit, 2+r.Rng.Intn(3))
+			}
 		}
 	}
 }
@@ -1191,7 +1462,7 @@ func main() {
 		Prop:     "C03",
 		Rule: "a case is one history on one backend (hashmap/bbolt/fstree/badger x shadow-delete) or on an injected runtime database (runtime.Registry whose value provider keeps and logs every record its Set receives, starts with records of all four flag combinations and also changes and pushes values on its own; all actors read and write there: put, put-new, delete, expiry and flag setters, attribute insert, get-and-put-back, batch, purge, API create/update/insert/delete; the Set log and the feeds are drained after every step and the monitor checks that no Set reaches the provider for a key whose current record is visible and not permitted for the actor of that step): a privileged interface (sometimes with AlwaysMakeSecret / AlwaysMakeCrownjewel) writes records with all four flag combinations, each carrying a unique marker string; interfaces with Local/Internal = 00, 01, 10 (one of them possibly with a read cache, then used exclusively) and the database API (NewInterface(nil)) get, test existence, query, put, put-new, delete, set expiry, re-flag, insert attributes, batch-write, purge and subscribe; feeds are drained after every step. Outputs are compared with the compiled Lean model line by line; the monitor checks that no output of a non-privileged actor contains the marker of a record version that actor may not see, and replays the case on a reference map with the permission rules (denied / exists-only / no write-through). Regression cases walk every path once per backend. Parked-query cases (every 10th round, per backend, implementation only): 4-60 records below one prefix, some already protected; a non-privileged query whose consumer does not read until the result buffer is full (or the executor is done), then the privileged interface marks a subset secret / crown jewel / both and returns, then the consumer reads on; records are rendered as they arrive: no marker of a record protected before the query began, and from the (buffer capacity + 2)-th arrival on no record that itself carries a flag the interface may not see. Distinct by the hash of the lines.",
 		Extra: func(*hxlib.Run) map[string]any {
-			return map[string]any{"unprivileged_outcomes": outcomes, "api_operations_per_constructor": transports}
+			return map[string]any{"unprivileged_outcomes": outcomes, "api_operations_per_constructor": transports, "registry_query_scheduler": gateStats}
 		},
 		Generate: generate,
 		NewExec: func(*hxlib.Run) hxlib.Exec {
